@@ -129,6 +129,9 @@ var sliceHelpers = []sliceHelper{
 	{"ToSlice", 0, func(a, b []int) [][]int { return [][]int{gogu.ToSlice(a...)} }},
 	{"Union", 0, func(a, b []int) [][]int { r, _ := gogu.Union[int]([]any{a, b}); return [][]int{r} }},
 	{"Flatten", 0, func(a, b []int) [][]int { r, _ := gogu.Flatten[int]([]any{a, []any{b}}); return [][]int{r} }},
+	// the caller's own nested value ({a, {b, {5, a}, 6}, b}): its []any nodes are arguments too
+	{"FlattenNest", 0, func(a, b []int) [][]int { r, _ := gogu.Flatten[int](frameNest); return [][]int{r} }},
+	{"UnionNest", 0, func(a, b []int) [][]int { r, _ := gogu.Union[int](frameNest); return [][]int{r} }},
 	{"heap.FromSlice", 1, func(a, b []int) [][]int {
 		return [][]int{heap.FromSlice(a, func(x, y int) bool { return x < y }).GetValues()}
 	}},
@@ -194,6 +197,35 @@ var frameKeys []int
 // Its fingerprint - which buffer each entry is a view of, and how long - is the third "buffer" of the scenario.
 var frameOuter [][]int
 
+// frameNest is the caller's nested value handed to Flatten / Union: {a, {b, {5, a}, 6}, b}.  Its fingerprint -
+// what every entry of its three []any nodes is - is the fourth "buffer" of the scenario.
+var frameNest []any
+
+func nestPrint(nodes [][]any, bufs [][]int) []int {
+	fp := []int{}
+	for _, nd := range nodes {
+		for _, e := range nd {
+			switch v := e.(type) {
+			case int:
+				fp = append(fp, 1000+v)
+			case []int:
+				fp = append(fp, aliasOf(v, bufs)*100+len(v))
+			case []any:
+				id := 999
+				for k, known := range nodes {
+					if len(v) > 0 && len(known) > 0 && &v[0] == &known[0] && len(v) == len(known) {
+						id = 900 + k
+					}
+				}
+				fp = append(fp, id)
+			default:
+				fp = append(fp, -1)
+			}
+		}
+	}
+	return fp
+}
+
 func outerPrint(o [][]int, bufs [][]int) []int {
 	o = o[:cap(o)]
 	fp := make([]int, len(o))
@@ -210,6 +242,7 @@ func outerPrint(o [][]int, bufs [][]int) []int {
 type frameSys struct {
 	keys   []int // backing array of frameKeys
 	outer  [][]int
+	nest   [][]any // the three []any nodes of frameNest, outermost first
 	kind   string
 	bufs   [][]int // full backing arrays (len == cap)
 	lens   []int
@@ -274,6 +307,12 @@ func (s *frameSys) Do(o tt.Op) tt.Res {
 			if fp := outerPrint(s.outer, s.bufs); !reflect.DeepEqual(fp, o.L[2]) {
 				panic(fmt.Sprintf("frame driver: outer fingerprint %v, scenario says %v", fp, o.L[2]))
 			}
+			in2 := []any{5, a}
+			in1 := []any{b, in2, 6}
+			s.nest = [][]any{{a, in1, b}, in1, in2}
+			if fp := nestPrint(s.nest, s.bufs); !reflect.DeepEqual(fp, o.L[3]) {
+				panic(fmt.Sprintf("frame driver: nest fingerprint %v, scenario says %v", fp, o.L[3]))
+			}
 		}
 		return tt.Res{Ok: true}
 	case "call":
@@ -318,8 +357,9 @@ func (s *frameSys) Do(o tt.Op) tt.Res {
 		a := s.bufs[0][:s.lens[0]] // cap = the whole backing array: spare capacity is reachable
 		b := s.bufs[1][:s.lens[1]]
 		frameOuter = s.outer[:4]
+		frameNest = s.nest[0]
 		res := h.call(a, b)
-		after := [][]int{cp(s.bufs[0]), cp(s.bufs[1]), outerPrint(s.outer, s.bufs)}
+		after := [][]int{cp(s.bufs[0]), cp(s.bufs[1]), outerPrint(s.outer, s.bufs), nestPrint(s.nest, s.bufs)}
 		rr := s.reread()
 		for _, r := range res {
 			aliases = append(aliases, aliasOf(r, s.bufs))
@@ -360,7 +400,8 @@ func frameExplorer(depth int) *tt.Explorer {
 								fa = 0 // an empty slice without capacity is a view of nothing
 							}
 							o := tt.Op{N: "bufs", F: "slice", A: []int{len(a), len(b), 4},
-								L: [][]int{withSpare(a, spare), withSpare(b, spare), {200 + len(b), fa, 201, fa, -9, -9}}}
+								L: [][]int{withSpare(a, spare), withSpare(b, spare), {200 + len(b), fa, 201, fa, -9, -9},
+									{fa, 901, 200 + len(b), 200 + len(b), 902, 1006, 1005, fa}}}
 							r = append(r, o)
 						}
 					}
